@@ -25,6 +25,9 @@ func keyShape(v ssa.Value) string {
 		if f := x.Call.StaticCallee(); f != nil {
 			var consts []string
 			for _, a := range x.Call.Args {
+				if tbl := constTableElems(a); len(tbl) > 0 && keyShapeTableIndex >= 0 && keyShapeTableIndex < len(tbl) {
+					a = tbl[keyShapeTableIndex]
+				}
 				if c, ok := a.(*ssa.Const); ok && c.Value != nil {
 					if c.Value.Kind() == constant.Int {
 						if i, ok := constant.Int64Val(c.Value); ok && i > 31 && i < 127 {
@@ -129,15 +132,33 @@ type opPath struct {
 func opPathsF(f *ssa.Function, successOnly bool) []opPath {
 	var out []opPath
 	var dfs func(b *ssa.BasicBlock, cur []bucketOp, facts []string, seen map[int]bool)
+	again := map[int]bool{} // blocks entered a second time on the current path (one loop iteration)
 	dfs = func(b *ssa.BasicBlock, cur []bucketOp, facts []string, seen map[int]bool) {
 		if seen[b.Index] {
-			return
+			// a loop: follow the back edge once, so that the path through the body reaches the exit
+			if again[b.Index] || len(out) > 4096 {
+				return
+			}
+			again[b.Index] = true
+			defer delete(again, b.Index)
+		} else {
+			seen[b.Index] = true
+			defer delete(seen, b.Index)
 		}
-		seen[b.Index] = true
-		defer delete(seen, b.Index)
 		for _, in := range b.Instrs {
 			if o, ok := asBucketOp(in); ok {
 				cur = append(cur, o)
+				// a key argument drawn from a table of constants that a loop walks: one operation per entry
+				if n := keyTableSize(in); n > 1 {
+					cur = cur[:len(cur)-1]
+					for i := 0; i < n; i++ {
+						keyShapeTableIndex = i
+						if oi, ok := asBucketOp(in); ok {
+							cur = append(cur, oi)
+						}
+					}
+					keyShapeTableIndex = -1
+				}
 			}
 			if r, ok := in.(*ssa.Return); ok {
 				success := true
@@ -168,12 +189,47 @@ func opPathsF(f *ssa.Function, successOnly bool) []opPath {
 				return
 			}
 		}
+		// a loop over a table of constants runs at least once: on the first arrival at its header
+		// (`index < N`, N a positive constant, index starting below it) only the body is feasible
+		if ifi, ok := b.Instrs[len(b.Instrs)-1].(*ssa.If); ok && !again[b.Index] {
+			if bo, ok := ifi.Cond.(*ssa.BinOp); ok && bo.Op == token.LSS {
+				if n, isC := ssax.ConstInt(bo.Y); isC && n >= 1 && countsFromStart(bo.X, b) {
+					dfs(b.Succs[0], cur, facts, seen)
+					return
+				}
+			}
+		}
 		for _, s := range b.Succs {
 			dfs(s, cur, facts, seen)
 		}
 	}
 	dfs(f.Blocks[0], nil, nil, map[int]bool{})
 	return out
+}
+
+// countsFromStart: v is a loop counter of header b that is 0 on the first test (a phi starting at 0,
+// or the rotated form phi+1 with the phi starting at -1).
+func countsFromStart(v ssa.Value, b *ssa.BasicBlock) bool {
+	off := int64(0)
+	if bo, ok := v.(*ssa.BinOp); ok && bo.Op == token.ADD {
+		if c, isC := ssax.ConstInt(bo.Y); isC {
+			off, v = c, bo.X
+		}
+	}
+	phi, ok := v.(*ssa.Phi)
+	if !ok || phi.Block() != b {
+		return false
+	}
+	for i, p := range b.Preds {
+		if b.Dominates(p) {
+			continue // back edge
+		}
+		c, isC := ssax.ConstInt(phi.Edges[i])
+		if !isC || c+off != 0 {
+			return false
+		}
+	}
+	return true
 }
 
 func opPaths(f *ssa.Function, successOnly bool) [][]bucketOp {
@@ -936,4 +992,93 @@ func Pair(w *load.World, c *core.Collector) {
 			}
 		}
 	}
+}
+
+// keyShapeTableIndex selects, while >= 0, which entry of a constant table stands for a key
+// argument that is loaded from that table (see constTableElems).
+var keyShapeTableIndex = -1
+
+// constTableElems: v is an element loaded from a function-local array that holds nothing but
+// constants (`for _, suffix := range [...]byte{'v', 'q'}`): the constants, in index order.
+func constTableElems(v ssa.Value) []*ssa.Const {
+	var al *ssa.Alloc
+	switch x := v.(type) {
+	case *ssa.UnOp: // *(&table[i])
+		if x.Op != token.MUL {
+			return nil
+		}
+		ia, ok := x.X.(*ssa.IndexAddr)
+		if !ok {
+			return nil
+		}
+		al, _ = ia.X.(*ssa.Alloc)
+	case *ssa.Index: // (*table)[i], the form a range over an array value takes
+		if ld, ok := x.X.(*ssa.UnOp); ok && ld.Op == token.MUL {
+			al, _ = ld.X.(*ssa.Alloc)
+		}
+	}
+	if al == nil {
+		return nil
+	}
+	at, ok := al.Type().Underlying().(*types.Pointer).Elem().Underlying().(*types.Array)
+	if !ok || at.Len() > 16 {
+		return nil
+	}
+	out := make([]*ssa.Const, at.Len())
+	for _, r := range *al.Referrers() {
+		switch x := r.(type) {
+		case *ssa.IndexAddr:
+			for _, rr := range *x.Referrers() {
+				st, ok := rr.(*ssa.Store)
+				if !ok {
+					continue
+				}
+				idx, okI := ssax.ConstInt(x.Index)
+				cv, okC := st.Val.(*ssa.Const)
+				if !okI || !okC || idx < 0 || idx >= at.Len() {
+					return nil
+				}
+				out[idx] = cv
+			}
+		case *ssa.Store:
+			return nil
+		}
+	}
+	for _, c := range out {
+		if c == nil {
+			return nil
+		}
+	}
+	return out
+}
+
+// keyTableSize: the number of entries of the constant table a bucket operation's key draws from (0 if none).
+func keyTableSize(in ssa.Instruction) int {
+	call, ok := in.(*ssa.Call)
+	if !ok || len(call.Call.Args) == 0 {
+		return 0
+	}
+	var find func(v ssa.Value, depth int) int
+	find = func(v ssa.Value, depth int) int {
+		if depth > 3 {
+			return 0
+		}
+		if t := constTableElems(v); len(t) > 0 {
+			return len(t)
+		}
+		switch x := v.(type) {
+		case *ssa.Call:
+			for _, a := range x.Call.Args {
+				if n := find(a, depth+1); n > 0 {
+					return n
+				}
+			}
+		case *ssa.Convert:
+			return find(x.X, depth+1)
+		case *ssa.Slice:
+			return find(x.X, depth+1)
+		}
+		return 0
+	}
+	return find(call.Call.Args[0], 0)
 }
